@@ -71,6 +71,7 @@ def vmdk_desc(draw, tier):
             e["name"] = "u" + e["name"]
         names.add(e["name"])
     return {"mode": "vmdk-desc", "extents": exts, "crlf": draw(st.booleans()), "comments": draw(st.booleans()),
+            "zero_lines": draw(st.lists(st.integers(0, 6), max_size=2, unique=True)) if draw(st.integers(0, 3)) == 0 else [],
             "by": draw(st.sampled_from(["path", "path", "str", "fh-named"])),
             "ddb": draw(st.sampled_from([{}, {"ddb.adapterType": "lsilogic", "ddb.geometry.cylinders": "1024"}]))}
 
@@ -209,6 +210,9 @@ def check(spec) -> Outcome:
                 fh.grow(fh.size + e["flat_extra"])
             fh.write_to(os.path.join(d, e["name"]))
             lines.append({"access": e["access"], "sectors": e["spec"]["capacity"], "type": e["type"], "file": e["name"], "offset": e["offset"]})
+        for pos in sorted(spec.get("zero_lines", []), reverse=True):
+            # zero-length ZERO extents (no file name) between the data-bearing ones
+            lines.insert(min(pos, len(lines)), {"access": "RW", "sectors": 0, "type": "ZERO", "file": None, "offset": None})
         text = bvmdk.descriptor_text({"extents": lines, "crlf": spec["crlf"], "comments": spec["comments"], "ddb": spec["ddb"],
                                       "create_type": "twoGbMaxExtentSparse"})
         p = os.path.join(d, "the disk.vmdk")
@@ -233,7 +237,7 @@ def check(spec) -> Outcome:
             else:
                 if dsc.sectors != total // 512:
                     out.fail("mismatch|vmdk-desc-sectors", f"descriptor.sectors {dsc.sectors} != {total // 512}")
-                got = [(x.access_mode, x.sectors, x.type, x.filename) for x in dsc.extents]
+                got = [(x.access_mode, x.sectors, x.type, x.filename) for x in dsc.extents if x.type != "ZERO"]
                 exp = [(e["access"], e["spec"]["capacity"], e["type"], e["name"]) for e in exts]
                 if got != exp:
                     out.fail("mismatch|vmdk-desc-extents", f"extent lines {got} != {exp}")
